@@ -227,6 +227,18 @@ def variants(prog, opts, rng):
         out.append({"mode": "tweak_cond", "sels": [{"focus": dv, "ctx": []}], "supply": 557})
         out.append({"mode": "tweak", "sels": [{"focus": dv, "ctx": []}], "supply": 560, "decline_inside": True})
         out.append({"mode": "total", "sels": [{"focus": dv, "ctx": [n for n in names if n != dv][:2]}]})
+        # history dimension: the function was (closed) / still is (active) instrumented for another variable only
+        other = next(n for n in names if n != dv)
+        for w in ("closed", "active"):
+            out.append({"mode": "ovprobe", "sels": [{"focus": dv, "ctx": []}], "supply": 561, "warm": f"{w}:{other}"})
+            out.append({"mode": "probe", "sels": [{"focus": dv, "ctx": []}], "warm": f"{w}:{other}"})
+        if prog["decl"].get("tag"):
+            # the declared variable reached through its tag only ($v:@T, *:@T), supplying or not
+            cat = "$v:@" + prog["decl"]["tag"]
+            out.append({"mode": "catprobe", "sels": [{"focus": cat, "ctx": []}], "supply": 562})
+            out.append({"mode": "catplain", "sels": [{"focus": cat, "ctx": []}]})
+            out.append({"mode": "catprobe", "sels": [{"focus": cat, "ctx": []}], "supply": 563, "warm": f"closed:{other}"})
+            out.append({"mode": "catplain", "sels": [{"focus": "*:@" + prog["decl"]["tag"], "ctx": []}], "warm": f"active:{other}"})
         if "var2" in prog["decl"]:
             out.append({"mode": "tweak", "sels": [{"focus": prog["decl"]["var2"], "ctx": []}], "supply": 558})
             out.append({"mode": "tweak2", "sels": [{"focus": dv, "ctx": []}, {"focus": prog["decl"]["var2"], "ctx": []}], "supply": 559})
@@ -254,6 +266,26 @@ def run_variant(runner, var, script):
            "supply": var.get("supply", 0), "only": var.get("only", "")}
     mod = runner.load(twin=False)
     fn = getattr(mod, runner.name)
+    import contextlib
+    rec["warm"] = var.get("warm", "")
+    wstack = contextlib.ExitStack()
+    if rec["warm"]:
+        # earlier life of the function: a probe on another variable, already closed or still active
+        state, wv = rec["warm"].split(":")
+        try:
+            wp = probing(f"{runner.name} > {wv}", env={runner.name: fn})
+            wp.subscribe(lambda d: None)
+            wstack.enter_context(wp)
+            if state == "closed":
+                wstack.close()
+        except BaseException as ex:
+            rec["act_err"] = "warm:" + type(ex).__name__
+            return rec
+    with wstack:
+        return _run_variant(runner, var, script, mod, fn, rec)
+
+
+def _run_variant(runner, var, script, mod, fn, rec):
     try:
         if var["mode"] == "tooled":
             fn2 = tooled(fn)
@@ -311,12 +343,20 @@ def run_variant(runner, var, script):
                     st.enter_context(p)
                 rec["log"], rec["result"] = runner.call(mod, fn, script)
             rec["streams"] = [merged]
-        elif var["mode"] == "ovprobe":
+        elif var["mode"] in ("ovprobe", "catprobe"):
             env = {runner.name: fn}
             p = probing(sel_text(runner.name, var["sels"][0]), env=env, overridable=True)
             p.override(var["supply"])
             with p:
                 rec["log"], rec["result"] = runner.call(mod, fn, script)
+        elif var["mode"] == "catplain":
+            env = {runner.name: fn}
+            p = probing(sel_text(runner.name, var["sels"][0]), env=env, raw=True)
+            seen = []
+            p.subscribe(lambda d: seen.append(sorted([c.name, rt2.enc(c.value)] for c in d.values())))
+            with p:
+                rec["log"], rec["result"] = runner.call(mod, fn, script)
+            rec["streams"] = [seen]
         else:
             env = {runner.name: fn}
             streams = [[] for _ in var["sels"]]
